@@ -78,11 +78,11 @@ def valid_dft(rng, s, allow_d23=False):
     ln = rng.choice([0, 1])
     inv, one = rng.choice([(None, None), (0, 0), (1, None), (None, 1), (0, 1)])
     if s <= 19:
-        axes = [1, 2, -2] if rank == 4 else [1, -2]
+        axes = [0, 1, 2, -2, -3] if rank == 4 else [0, 1, -2]
         if rank == 3 or allow_d23:
             axes.append(None)
         return DFT(rng.choice(axes), inv, one, ln, None, rank)
-    return DFT(None, inv, one, ln, rng.choice([None, 1, -2] + ([2] if rank == 4 else [])), rank)
+    return DFT(None, inv, one, ln, rng.choice([None, 0, 1, -2] + ([2] if rank == 4 else [])), rank)
 
 
 def valid_gn(rng, s, findings_ok=False):
@@ -320,7 +320,13 @@ def run_real(case: dict):
             out["inputs"] = [v.name for v in m.graph.inputs]
             out["inits"] = list(m.graph.initializers.keys())
             try:
-                if case["entry"] == "ir":
+                if case["entry"] == "ir" and fb is True:
+                    # the stable torch API: convert_version(model, v) == convert_version(model, v, fallback=True)
+                    from onnxscript._framework_apis import torch_2_9
+
+                    if torch_2_9.convert_version(m, case["target"]) is not m:
+                        err = "other:torch_2_9-returned-another-object"
+                elif case["entry"] == "ir":
                     vc.convert_version(m, case["target"], fallback=fb)
                 else:
                     nvc.convert_version(m, case["target"])
@@ -977,8 +983,11 @@ def main(run: core.Run) -> None:
         return
 
     drift = []
+    fp_file = core.VERIF / "harness" / "fingerprints_c10.json"
+    recorded = json.loads(fp_file.read_text()) if fp_file.exists() else {}
     for rel, names in SRC:
-        drift += core.fingerprint_drift("C10", rel, names)
+        cur = core.source_fingerprint(rel, names)
+        drift += [f"{rel}:{q}" for q in names if recorded.get(rel, {}).get(q) not in (None, cur.get(q))]
     run.coverage["fingerprint_drift"] = drift
 
     vers = list(range(18, 26))
